@@ -13,8 +13,17 @@ from .buildrules import pcs
 from . import facerule as FR
 
 
+_face_no = itertools.count()
+
+
 def face(left, right, shift):
-    integ = engine.make_struct('src/voronoi/integrals.rs', 'FaceIntegrator', left=left, right=right, integral=Opaque('integral'), shift=shift)
+    # the geometric content of a face is symbolic (any area, centroid, normal): the index structure must not depend on it
+    k = next(_face_no)
+    try:
+        integral = engine.make_struct('src/voronoi/voronoi_face.rs', 'VoronoiFaceIntegral', area=z3.Real('farea%d' % k), centroid=rvec('fcen%d' % k), normal=rvec('fnrm%d' % k))
+    except Exception:
+        integral = Opaque('integral')
+    integ = engine.make_struct('src/voronoi/integrals.rs', 'FaceIntegrator', left=left, right=right, integral=integral, shift=shift)
     return engine.make_struct('src/voronoi/voronoi_face.rs', 'VoronoiFace', inner=integ)
 
 
@@ -139,6 +148,43 @@ def run_combo(run, funcs, pid, N, combo):
                     run.needs_native = True
         if off != len(conn):
             run.suspect.append('%s finalize %r: total of the face counts %d != length of the connectivity array %d' % (pid, combo, off, len(conn)))
+    run.add_functions(interp, funcs)
+
+
+def cell_record(run, funcs, pid):
+    """VoronoiCell::finalize stores, and face_connections_offset() / face_count() return, the offset and the count EXACTLY for every value a
+    tessellation can produce (symbolic, up to 2^48): the index structure stays valid for cells with hundreds of faces and tessellations with
+    billions of connections"""
+    import re
+    from . import oracle as OR
+    off, cnt = z3.Int('rec_off'), z3.Int('rec_cnt')
+    pre = [off >= 0, cnt >= 0, off < 2 ** 48, cnt < 2 ** 48]
+    uname = engine.find_fn(funcs, r'voronoi_cell::<impl at [^>]*>::unconstructed$')
+    interp = engine.new_interp(funcs)
+    st = State()
+    st.pc.extend(pre)
+    outs = interp.exec_fn(st, uname, [z3.Int('rec_idx')], {})
+    if len(outs) != 1:
+        raise Inconclusive('VoronoiCell::unconstructed: %d paths' % len(outs))
+    st, cell = outs[0]
+    st.heap[77] = cell
+    fname = engine.find_fn(funcs, r'voronoi_cell::<impl at [^>]*>::finalize$')
+    outs = interp.exec_fn(st, fname, [Ref(('H', 77)), off, cnt], {})
+    if len(outs) != 1:
+        raise Inconclusive('VoronoiCell::finalize: %d paths' % len(outs))
+    st = outs[0][0]
+    for acc, want in (('face_connections_offset', off), ('face_count', cnt)):
+        aname = engine.find_fn(funcs, r'voronoi_cell::<impl at [^>]*>::%s$' % acc)
+        for s2, v in interp.exec_fn(st.fork(), aname, [Ref(('H', 77))], {}):
+            vv, m = run.prove('%s VoronoiCell::%s() returns what finalize stored, for every offset / count below 2^48' % (pid, acc), pcs(s2), z3.Not(to_z3(v) == want),
+                              timeout=20, cross=False, on_sat='caller')
+            if vv == 'sat':
+                val = int(engine.model_value(m, want))
+                what = '%s VoronoiCell::%s() != stored value (e.g. %d is returned as %s)' % (pid, acc, val, engine.model_value(m, to_z3(v)))
+                n = min(max(val + 20, 40), 400)
+                extra = [OR.ring_scenario(2, n), OR.ring_scenario(3, n)]
+                if not OR.confirm_family(pid, run, what, 2, False, None, (0, 1), pids=('C12',), extra=extra):
+                    run.suspect.append(what + ' - no public-API scenario with that many faces shows a difference')
     run.add_functions(interp, funcs)
 
 
